@@ -18,7 +18,8 @@ META = {
             "CLOCKS AND RANDOMNESS: every call of time.*, datetime.now, random.*, numpy.random.*, uuid, os.getpid, id() feeds "
             "logging only (directly or through a local used only in logging calls). (4) no numba kernel is compiled with "
             "parallel=True / fastmath / prange (thread-schedule dependent reductions), no thread pools; (5) worker purity and "
-            "ordered collection (C03) are imported as given there.",
+            "ordered collection (C03) are imported as given there."
+            " The kind of a set-valued name is joined over all its assignments (a set of strings on one branch counts).",
     "note": "Bitwise equality of floating-point results additionally relies on scipy/numba/numpy being deterministic for equal "
             "inputs on one machine; file-system listing order and tar timestamps are outside the statement.",
     "technique": "effect / taint rules on the AST over the whole package: hash-order dependent iteration, hash() call sites, nondeterminism sources to sinks, decorator flags",
